@@ -404,7 +404,12 @@ namespace vf
           d += ch.lattice(50e3, 400e3, 10e3);
           axes.push(J(ch.real(50, 300) * km));
           ecc.push(J(ch.lattice(0, 0.875, 0.125)));
-          rot.push(J(ch.lattice(0, 345, 15)));
+          {
+            // neighbouring orientations exactly 180 degrees apart have no "shortest way round": avoided
+            double rv = ch.lattice(0, 345, 15);
+            if (rot.size() > 0 && std::fabs(std::fabs(rv - rot[rot.size() - 1].num()) - 180.0) < 1e-9) rv = std::fmod(rv + 15.0, 360.0);
+            rot.push(J(rv));
+          }
         }
       feat["coordinates"] = coords;
       feat["cross section depths"] = depths;
